@@ -26,7 +26,7 @@ TIMEOUT = {"quick": 900, "thorough": 3600}
 SCTP_CLONES = {"quick": ['rand3', 'exh9'], "thorough": ['rand10', 'rand11', 'exh15']}
 OUTCOMES = ["refused", "inprogress_ok_gone", "inprogress_fail", "cea_rejected", "cea_timeout", "gone", "error", "dpr",
             "inbound_dup_closed", "pending_inbound_lost", "inbound_dup_then_dpr", "write_error",
-            "inbound_then_gone"]
+            "inbound_then_gone", "dpr_late_dwa"]
 FLAGSETS = [
     dict(persistent=True, always_reconnect=False, reconnect_wait=3, addr=True),
     dict(persistent=True, always_reconnect=True, reconnect_wait=2, addr=True),
@@ -59,7 +59,9 @@ class Case:
         # a dial that stays pending must outlive a reconnect wait for "pending_inbound_lost" to mean anything
         self.cea_timeout = flags["reconnect_wait"] + 3 if "pending_inbound_lost" in outcomes else 2
         self.w = World(dict(peers=[pc], apps=[{"tag": "a4", "id": 4, "peers": [PEER]}],
-                            node={"cea_timeout": self.cea_timeout, "cer_timeout": 2, "idle_timeout": 10 ** 6}))
+                            node={"cea_timeout": self.cea_timeout, "cer_timeout": 2, "dwa_timeout": 10 ** 6,
+                                  "idle_timeout": 10 ** 6}))
+        self.late_dwa = "dpr_late_dwa" in outcomes
         self.h = self.w.h
         self.node = self.w.node
         self.W = flags["reconnect_wait"]
@@ -333,7 +335,17 @@ class Case:
             h.settle()
             self.new_connects()
             self.note_loss()
-        elif outcome == "dpr":
+        elif outcome in ("dpr", "dpr_late_dwa"):
+            dwr = None
+            if outcome == "dpr_late_dwa":
+                # the node's own watchdog request is under way when the DPR arrives (sent by hand: the idle timer of
+                # this check never fires); its answer comes after the DPA
+                conn = h.conn_of(p)
+                if conn is not None:
+                    self.node.send_dwr(conn)
+                    h.settle()
+                    p.drain()
+                    dwr = next((f for f in reversed(p.frames) if f.h.code == 280 and f.is_request), None)
             seen = len(p.frames)
             p.send(M.dpr(PEER, self.REALM, hbh=77, e2e=78))
             h.settle()
@@ -343,11 +355,15 @@ class Case:
                 self.witness("dpr.not_answered_with_2001_dpa", {"frames": [repr(f) for f in p.frames[seen:]]})
             from diameter.node.node import NotRoutable
             from diameter.message.commands import CreditControlRequest
+            if dwr is not None:
+                p.send(M.dwa(PEER, self.REALM, hbh=dwr.h.hbh, e2e=dwr.h.e2e))
+                h.settle()
+                self.run.cov["late_dwa_after_dpr"] = self.run.cov.get("late_dwa_after_dpr", 0) + 1
             m = CreditControlRequest()
             m.destination_realm = self.REALM.encode()
             try:
                 self.node.route_request(self.w.apps["a4"], m)
-                self.witness("dpr.connection_still_offered_for_routing", {})
+                self.witness("dpr.connection_still_offered_for_routing", {"late_dwa": dwr is not None})
             except NotRoutable:
                 pass
             from diameter.node.peer import DISCONNECT_REASON_DPR
